@@ -85,77 +85,29 @@ func TestVerif_C01_Benign(t *testing.T) {
 	})
 }
 
-func c01Budget() int {
-	if vkThorough() {
-		return 420
-	}
-	return 260
-}
-
-// TestVerif_C01_Schedules: adversarial schedules (reorder, duplicate, drop, partition, clock drift, timeouts incl. fast
-// recovery, crash/restart from the last persisted bytes, catch-up) and Byzantine identities below the bound.
+// TestVerif_C01_Schedules: adversarial schedules (reorder, duplicate, drop, class delays, partition, clock drift,
+// timeouts incl. fast recovery, crash/restart from the last persisted bytes, catch-up) and Byzantine identities below the bound.
 func TestVerif_C01_Schedules(t *testing.T) {
 	vk := vkBegin(t, "C01")
-	vk.Rule("rapid-drawn schedules over Engine A (3..6 honest nodes, 0..2 Byzantine identities of >=9 accounts, up to ~400 events): non-trivial = >=1 commit AND one of {period>0, partition, crash between attest and commit, equivocation counted by an honest tracker}; distinct by population + commit sequence + event counters")
+	vk.Rule("rapid-drawn schedules over Engine A (3..6 honest nodes, 0..2 Byzantine identities of >=9 accounts, 250..1200 events): non-trivial = >=1 commit AND one of {period>0, partition, crash between attest and commit, equivocation counted by an honest tracker}; distinct by population + commit sequence + event counters")
 	vk.Assume("glue (network, demux tagging, pseudonode, persistence handshake, clock) re-implemented from service.go/demux.go/actions.go/pseudonode.go/persistence.go; the ledger is upstream's testLedger and is durable")
 	rapid.Check(t, func(t *rapid.T) {
-		c01Case(t, vk, nil)
-	})
-}
-
-// c01Case runs one adversarial case; extra observers (C03) can be attached through hook.
-func c01Case(t *rapid.T, vk *vkCtx, hook func(s *engaSim)) *engaSim {
-	withByz := rapid.IntRange(0, 2).Draw(t, "withByz") > 0
-	var cfg engaConfig
-	if withByz {
-		cfg = engaDrawConfig(t, 3, 5, 7, 10, 2)
-		if cfg.Byz > 0 && len(cfg.Stake) < 9 {
-			cfg.Byz = 1 // B <= 2 only with >= 9 accounts, else 1
+		c := engaRunCase(t, engaCaseOpts{hook: func(s *engaSim) { c01Attach(s) }})
+		s := c.s
+		if !c.account(vk) {
+			vk.Case(false, s.fingerprint())
+			return
 		}
-	} else {
-		cfg = engaDrawConfig(t, 3, 6, 4, 9, 0)
-	}
-	s := engaNewSim(t, cfg)
-	s.traceOn = true
-	c01Attach(s)
-	if hook != nil {
-		hook(s)
-	}
-	sc := engaNewSched(t, s)
-	budget := rapid.IntRange(60, c01Budget()).Draw(t, "budget")
-	rounds := round(rapid.IntRange(1, 3).Draw(t, "rounds"))
-	stopped := s.guard(func() {
-		for s.stats.events < budget {
-			if !sc.step() {
-				break
-			}
-			done := true
-			for _, n := range s.nodes {
-				if !n.up || n.committed() < rounds {
-					done = false
-				}
-			}
-			if done {
-				break
-			}
+		st := s.stats
+		nt := len(s.commits) >= 1 && (st.maxPeriod > 0 || st.partitions > 0 || st.crashAttestCommit > 0 || st.equivSeen > 0)
+		s.label(vk, "")
+		vk.Labelf("profile=%s", c.sc.prof.Name)
+		vk.Labelf("byz=%d", c.cfg.Byz)
+		vk.Case(nt, s.fingerprint())
+		if vk.WantSample(nt) {
+			vk.Sample(nt, map[string]any{"config": c.cfg.String(), "profile": c.sc.prof.Name, "events": st.events, "commits": len(s.commits),
+				"maxPeriod": st.maxPeriod, "maxStep": st.maxStep, "crashes": st.crashes, "partitions": st.partitions, "byzVotes": st.byzVotes,
+				"equivocationsCounted": st.equivSeen, "ensures": fmt.Sprint(len(s.ensures))})
 		}
 	})
-	s.stats.equivSeen = s.countEquivocations()
-	if stopped {
-		vk.Excluded(s.excluded)
-		vk.Case(false, s.fingerprint())
-		return s
-	}
-	st := s.stats
-	nt := len(s.commits) >= 1 && (st.maxPeriod > 0 || st.partitions > 0 || st.crashAttestCommit > 0 || st.equivSeen > 0)
-	s.label(vk, "")
-	vk.Labelf("profile=%s", sc.prof.Name)
-	vk.Labelf("byz=%d", cfg.Byz)
-	vk.Case(nt, s.fingerprint())
-	if vk.WantSample(nt) {
-		vk.Sample(nt, map[string]any{"config": cfg.String(), "profile": sc.prof.Name, "events": st.events, "commits": len(s.commits),
-			"maxPeriod": st.maxPeriod, "maxStep": st.maxStep, "crashes": st.crashes, "partitions": st.partitions, "byzVotes": st.byzVotes,
-			"equivocationsCounted": st.equivSeen, "ensures": fmt.Sprint(len(s.ensures))})
-	}
-	return s
 }
